@@ -1422,13 +1422,15 @@ def inline_fresh_temps(rel, module, refnames):
                             names.append(t)
                             changed = True
                             break
-                        if _builds_container(st.value):
-                            continue        # a value that IS a new container keeps its name (S15 / S24 work on the assignment)
                         single_ok = False
                         if len(loads[t]) == 1:
                             for h in _once_first_hosts(blk[i + 1]):
                                 if any(x is loads[t][0] for x in _walk_no_defer(h)):
                                     single_ok = True
+                        if _builds_container(st.value) and not (single_ok and isinstance(blk[i + 1], ast.Return)
+                                                                and blk[i + 1].value is loads[t][0]):
+                            continue        # a value that IS a new container keeps its name (S15 / S24 work on the assignment);
+                            #                 except `t = <new container>; return t`, which is `return <new container>`
                         if not single_ok:
                             # several uses (or one use that is not evaluated once-and-first): only a pure value whose inputs
                             # stay untouched until the last use
